@@ -114,8 +114,12 @@ Next ==
          bad == {cl \in Names(Ev.op) : ~F[cl]}
      IN /\ \A cl \in bad : PrintT(ToJson([t |-> T.id, l |-> l, op |-> Ev.op, cl |-> cl, dev |-> DevFor(cl), exp |-> <<>>, obs |-> <<>>]))
         /\ cnt' = IF Ev.op = "EFill" THEN Ev.post ELSE cnt          \* continue from what the implementation did
-        /\ where' = IF Ev.op = "EFill" /\ Ok /\ Ev.cls = "in" /\ Choices # {}
+        (* remember where a probe went when it was filled ROW-WISE: bin_entries(xvalues) looks a value up with the
+           row-wise index arithmetic; the vectorised path may legitimately round a near-edge float into the other
+           neighbour, so after a vectorised fill of that probe nothing is claimed about its look-up *)
+        /\ where' = IF Ev.op = "EFill" /\ Ok /\ Ev.cls = "in" /\ Choices # {} /\ ~Ev.vec
                     THEN [where EXCEPT ![Ev.xid] = ToString(CHOOSE b \in Choices : TRUE)]
+                    ELSE IF Ev.op = "EFill" THEN [where EXCEPT ![Ev.xid] = ""]
                     ELSE where
         /\ l' = l + 1
   /\ UNCHANGED tid
